@@ -9,7 +9,6 @@ namespace F1.Props.FactsC10
 theorem fact_staged_NewRateCalculator : F1.Generated.skel_staged_NewRateCalculator = F1.Expected.skel_staged_NewRateCalculator := by rfl
 theorem fact_staged_addRange : F1.Generated.skel_staged_addRange = F1.Expected.skel_staged_addRange := by rfl
 theorem fact_staged_add : F1.Generated.skel_staged_add = F1.Expected.skel_staged_add := by rfl
-theorem fact_staged_Rate : F1.Generated.skel_staged_Rate = F1.Expected.skel_staged_Rate := by rfl
 theorem fact_staged_MaxDuration : F1.Generated.skel_staged_MaxDuration = F1.Expected.skel_staged_MaxDuration := by rfl
 theorem fact_staged_Calculate : F1.Generated.skel_staged_Calculate = F1.Expected.skel_staged_Calculate := by rfl
 theorem fact_staged_ParseStages : F1.Generated.skel_staged_ParseStages = F1.Expected.skel_staged_ParseStages := by rfl
